@@ -27,7 +27,7 @@ func (it *Interp) tryErrorString(v Iface) (s string, ok bool) {
 			ok = false
 		}
 	}()
-	f := it.prog.LookupMethod(v.t, nil, "Error")
+	f := it.findMethod(v.t, nil, "Error")
 	if f == nil {
 		return "", false
 	}
@@ -512,7 +512,7 @@ func (it *Interp) invokeMethod(fr *frame, recv Value, name string, args ...Value
 			pkg = n.Obj().Pkg()
 		}
 	}
-	f := it.prog.LookupMethod(iv.t, pkg, name)
+	f := it.findMethod(iv.t, pkg, name)
 	if f == nil {
 		panic(engineErr("no method %s on %v", name, iv.t))
 	}
@@ -676,4 +676,13 @@ func init() {
 		it.storePtr(data.v, it.binaryDecode(p.Elem(), buf, &pos, isBigEndian(args[1])))
 		return Iface{}
 	})
+}
+
+// findMethod returns the method named name of type t, or nil when t has no such method.
+func (it *Interp) findMethod(t types.Type, pkg *types.Package, name string) *ssa.Function {
+	sel := it.prog.MethodSets.MethodSet(t).Lookup(pkg, name)
+	if sel == nil {
+		return nil
+	}
+	return it.prog.MethodValue(sel)
 }
